@@ -5,6 +5,8 @@
 #include <google/protobuf/io/zero_copy_stream.h>
 #include <string.h>
 namespace google { namespace protobuf { namespace io {
+std::atomic<bool> CodedOutputStream::default_serialization_deterministic_{false};     // libprotobuf's initial values
+int CodedInputStream::default_recursion_limit_ = 100;
 // ---------------------------------------------------------------- input (array-backed: input_ == nullptr)
 CodedInputStream::~CodedInputStream() {}
 std::pair<uint64_t, bool> CodedInputStream::ReadVarint64Fallback() {
